@@ -10,7 +10,8 @@ without a want.  Run-time postconditions (written from C01 / C04 / C08, not from
  Q4 a statement carrying an inline directive is alone in its part; a block directive line starts a part, and no statement of the
     chunk that is not covered by a directive shares a part with an inline-directive statement;
  Q5 only the last part carries the want; without a want it is compiled in exec mode;
- Q6 _locate_ps1_linenos returns exactly the first lines of the statements.
+ Q6 _locate_ps1_linenos returns exactly the first lines of the statements;
+ Q7 no part is empty (an empty part shows up as a spurious blank line in the displayed source).
 """
 import ast
 import itertools
@@ -28,6 +29,7 @@ POOL = [
     (['# xdoctest: +SKIP'], 'block'),
     (['print(2)  # xdoctest: +SKIP'], 'inline'),
     (['# xdoctest: +REQUIRES(module:no_such_module_xyz)'], 'block'),
+    (['x + 1  # xdoctest: +ELLIPSIS'], 'inline'),
     (['z = (1 +  # xdoctest: +SKIP', '     2)'], 'inline'),
 ]
 
@@ -58,6 +60,8 @@ def check_chunk(parser_mod, stmts, ps2, want, lineno):
     got_orig = list(itertools.chain.from_iterable(p.orig_lines for p in parts))
     if got_exec != exec_all or got_orig != src:
         return 'Q1: the parts do not partition the chunk: %r' % ([p.exec_lines for p in parts],), 1
+    if any(len(p.exec_lines) == 0 for p in parts):
+        return 'Q7: an empty part is produced: %r' % ([p.exec_lines for p in parts],), 1
     off = lineno
     for p in parts:
         if p.line_offset != off:
